@@ -8,7 +8,6 @@ import run
 
 NA = {
  "C01": "quantifies over programs and compares the whole recursive evaluator with an operational semantics; no per-function contract carries it, Verus cannot ingest the evaluator (Cc<dyn>, closures, thread-locals, proc-macro builtins) and Kani ICEs on anything that can build an Error (DESIGN.md §2)",
- "C15": "agreement of three executables/ABIs on option plumbing (clap structs, C strings, env vars, exit codes); the only contract-sized pieces are peripheral to the property",
  "C19": "semantic preservation by the formatter relates two parses of two texts produced through dprint-core's print-item IR and rowan generated node types; no function-level pre/postcondition expresses 'same AST'",
  "C20": "idempotence/termination of layout resolution (dprint_core solver, convergence loop) and crash-freedom on arbitrary token sequences through generated parser code: whole-pipeline, liveness-flavoured, outside both tools' reach",
 }
